@@ -140,7 +140,7 @@ def handle (case impl : List String) : Verdict :=
   | "clip" :: k :: n :: words =>
     match k.toNat?, n.toNat? with
     | some k, some n =>
-      let kw := if k == 4 then 3 else k
+      let kw := if k == 4 || k == 5 then 3 else if k == 6 then 4 else k
       let stride := 4 + kw
       let inRats := words.filterMap fun t => (parseF32Bits? t).bind F32.toRat?
       if inRats.length != words.length || words.length != n * 3 * stride then bad "clip words"
